@@ -8,3 +8,5 @@ require (
 	golang.org/x/mod v0.22.0 // indirect
 	golang.org/x/sync v0.10.0 // indirect
 )
+
+require sigs.k8s.io/yaml v1.4.0
